@@ -1305,7 +1305,7 @@ func streamFault(g *G) { // C16
 	rid, gid := 1, 1
 	for !g.full() {
 		rec := g.chance(0.6)
-		recKinds := []string{"", "", "s500", "w503", "l400", "g418", "s599", "s200", "w404", "s502", "l403", "g451", "w100", "s304"}
+		recKinds := []string{"", "", "s500", "w503", "l400", "g418", "s599", "s200", "w404", "s502", "l403", "g451", "w101", "s304"}
 		g.routerLine(rid, routerOpt{name: "f", recover: rec, recKind: g.pick(recKinds), trace: g.chance(0.5)})
 		g.emit("use %d 1", rid)
 		g.emit("handle %d /a 1 2,3 %s", rid, encL([]string{"GET", "POST"}))
@@ -1374,7 +1374,7 @@ func (g *G) script() string {
 		case 2:
 			acts = append(acts, "d:"+encB(g.pick([]string{"X-A", "Content-Length", "x-A", "content-LENGTH", "vary"})))
 		case 3:
-			acts = append(acts, fmt.Sprintf("w:%d", []int{200, 201, 204, 404, 500}[g.intn(5)]))
+			acts = append(acts, fmt.Sprintf("w:%d", []int{200, 201, 204, 404, 500, 103, 100, 101}[g.intn(8)]))
 		default:
 			acts = append(acts, fmt.Sprintf("b:%d", []int{0, 1, 5, 17, 4096}[g.intn(5)]))
 		}
